@@ -23,6 +23,9 @@ EXPLANATION += (
 EXPLANATION += (  # round-3 supplement
     ' L5 the host-side mirrors of the built-in enums are exactly #[repr(u8)] (payload placement agrees with the per-variant walks).'
 )
+EXPLANATION += (
+    ' L6 the type a record variable is bound to on meeting a concrete record lists the fields in the concrete order. L7 (= C15.M6) structural equality through list components: the element loop of the list equality lies behind a comparison of both lengths.'
+)
 ASSUMPTIONS = [
     "LayoutBuilder::add implements C-style layout (decided separately by its own three-line body being unchanged is NOT assumed; only the callers' agreement is decided)",
 ]
@@ -556,6 +559,19 @@ def rule_l6(F):
     return r
 
 
+def rule_l7(F):
+    """`==` / `!=` compare structurally, also through a list component of a record or enum: the generated equality of an aggregate
+    calls the list's runtime equality, which answers true only for lists of the same length (shared with C15.M6: the element loop
+    lies behind a comparison of both lengths, read under the locks the loop holds)."""
+    from . import c15
+    r = c15.rule_m6(F)
+    r.rule = "C02.L7"
+    r.desc = "structural equality through list components: the element-wise comparison of two lists only runs behind a comparison of both lengths"
+    for v in r.violations:
+        v.rule = "C02.L7"
+    return r
+
+
 def rules(ctx):
     F = ctx["F"]
-    return [rule_l1(F), rule_l2(F), rule_l3(F), rule_l4(F), rule_l5(F), rule_l6(F)]
+    return [rule_l1(F), rule_l2(F), rule_l3(F), rule_l4(F), rule_l5(F), rule_l6(F), rule_l7(F)]
